@@ -3,6 +3,7 @@ package main
 import (
 	"fmt"
 	"go/ast"
+	"go/token"
 	"go/types"
 	"strings"
 
@@ -54,7 +55,21 @@ func c01R8(ic *IC, r *Report, rule string, only map[string]bool) {
 				if !ok || f.Pkg() != ic.Pk.Types || !strings.HasPrefix(f.Name(), "gen") {
 					continue
 				}
+				isDest := false
 				if aid, ok := unparen(c.Args[0]).(*ast.Ident); ok && info.ObjectOf(aid) == nparam {
+					isDest = true
+				}
+				// the destinations of a two-value form: n.anc.child[i]
+				if ix, ok := unparen(c.Args[0]).(*ast.IndexExpr); ok {
+					if se, ok := unparen(ix.X).(*ast.SelectorExpr); ok && se.Sel.Name == "child" {
+						if se2, ok := unparen(se.X).(*ast.SelectorExpr); ok && se2.Sel.Name == "anc" {
+							if aid, ok := unparen(se2.X).(*ast.Ident); ok && info.ObjectOf(aid) == nparam {
+								isDest = true
+							}
+						}
+					}
+				}
+				if isDest {
 					if lid, ok := as.Lhs[i].(*ast.Ident); ok {
 						dests[info.ObjectOf(lid)] = true
 					}
@@ -151,4 +166,130 @@ func c01R8(ic *IC, r *Report, rule string, only map[string]bool) {
 	if nChecked < floor {
 		r.Errorf("%s: only %d result-storing closures analysed (of %d)", rule, nChecked, nClosures)
 	}
+}
+
+// R01.9: ranging over a string yields byte offsets. The range generator iterates over the
+// runes of the string, so every variant installed for a string operand must derive the key
+// from the byte length of the converted prefix (reflect.Value.Convert to string, then Len);
+// the key-only form `for i := range s` is a sibling of the key-value form and must do the same.
+func c01R9(ic *IC, r *Report) {
+	fi := ic.fn(r, "_range")
+	if fi == nil {
+		return
+	}
+	n := 0
+	ast.Inspect(fi.Decl.Body, func(nd ast.Node) bool {
+		ifs, ok := nd.(*ast.IfStmt)
+		if !ok || ifs.Else == nil {
+			return true
+		}
+		c, ok := unparen(ifs.Cond).(*ast.CallExpr)
+		if !ok || !isCallTo(ic.Info, c, "interp.isString") {
+			return true
+		}
+		n++
+		// the string arm installs its own closure computing a byte position
+		converts := false
+		ast.Inspect(ifs.Body, func(m ast.Node) bool {
+			if fl, ok := m.(*ast.FuncLit); ok && isFrameClosure(ic.Info, fl) {
+				if len(callsIn(ic.Info, fl.Body, true, "reflect.Value.Convert")) > 0 {
+					converts = true
+				}
+			}
+			return true
+		})
+		r.Check(converts, "R01.9", fmt.Sprintf("_range/string-variant#%d/byte-offsets", n), ic.pos(ifs.Pos()), "the string variant derives the key from the byte length of the converted prefix",
+			"this variant of the range generator for string operands installs no closure converting the rune prefix back to a string (reflect.Value.Convert): the key is the index of the rune, not its byte offset, so for i := range \"héy\" yields 0 1 2 where compiled Go yields 0 1 3")
+		return true
+	})
+	if n < 2 {
+		r.Errorf("R01.9: %d string variants (if isString(...) {...} else {...}) found in the range generator; the key-value and the key-only form are expected", n)
+	}
+}
+
+// R01.10: a blank range value has no frame slot. cfg gives no location to the value of
+// `for i, _ := range x` (it treats it as absent), so the range generator must not store the
+// element through that child's findex (which is 0: the function's first result or argument):
+// every store into f.data[<findex of child 1>] is guarded by a test derived from that child's
+// identifier being "_".
+func c01R10(ic *IC, r *Report) {
+	fi := ic.fn(r, "_range")
+	if fi == nil {
+		return
+	}
+	info := ic.Info
+	// index1 := n.child[1].findex
+	var idx types.Object
+	blank := map[types.Object]bool{}
+	ast.Inspect(fi.Decl.Body, func(nd ast.Node) bool {
+		as, ok := nd.(*ast.AssignStmt)
+		if !ok || len(as.Lhs) != len(as.Rhs) {
+			return true
+		}
+		for i, rhs := range as.Rhs {
+			lid, ok := as.Lhs[i].(*ast.Ident)
+			if !ok {
+				continue
+			}
+			txt := types.ExprString(rhs)
+			if txt == "n.child[1].findex" {
+				idx = info.ObjectOf(lid)
+			}
+			if be, ok := unparen(rhs).(*ast.BinaryExpr); ok && (be.Op == token.NEQ || be.Op == token.EQL) {
+				if types.ExprString(be.X) == "n.child[1].ident" && types.ExprString(be.Y) == `"_"` {
+					blank[info.ObjectOf(lid)] = true
+				}
+			}
+		}
+		return true
+	})
+	if idx == nil {
+		r.Errorf("R01.10: the location of the range value (n.child[1].findex) was not found in the range generator")
+		return
+	}
+	nStores := 0
+	var bad []string
+	ast.Inspect(fi.Decl.Body, func(nd ast.Node) bool {
+		c, ok := nd.(*ast.CallExpr)
+		if !ok {
+			return true
+		}
+		se, ok := unparen(c.Fun).(*ast.SelectorExpr)
+		if !ok || !strings.HasPrefix(se.Sel.Name, "Set") {
+			return true
+		}
+		ix, ok := unparen(se.X).(*ast.IndexExpr)
+		if !ok {
+			return true
+		}
+		iid, ok := unparen(ix.Index).(*ast.Ident)
+		if !ok || info.ObjectOf(iid) != idx {
+			return true
+		}
+		nStores++
+		guarded := false
+		for _, p := range enclosingPath(fi.Decl.Body, c) {
+			if ifs, ok := p.(*ast.IfStmt); ok {
+				ast.Inspect(ifs.Cond, func(m ast.Node) bool {
+					if id, ok := m.(*ast.Ident); ok && blank[info.ObjectOf(id)] {
+						guarded = true
+					}
+					if types.ExprString(ifs.Cond) == `n.child[1].ident != "_"` {
+						guarded = true
+					}
+					return true
+				})
+			}
+		}
+		if !guarded {
+			bad = append(bad, ic.pos(c.Pos()))
+		}
+		return true
+	})
+	if nStores == 0 {
+		r.Errorf("R01.10: no store of the range value found in the range generator")
+		return
+	}
+	r.Check(len(bad) == 0, "R01.10", "_range/blank-value-not-stored", ic.pos(fi.Decl.Pos()), fmt.Sprintf("%d stores of the range value, all guarded by the blank test", nStores),
+		"the range generator stores the element through the value child's frame index at "+strings.Join(bad, ", ")+" without testing that the value is not the blank identifier: for `for i, _ := range x` cfg allots no slot, the index is 0 and the element overwrites the function's first result or argument (or panics when the types differ)")
 }
